@@ -189,7 +189,7 @@ var c16Small = []string{"a", "b", "c", "any", "!a", "!b", "!zz"}
 
 // pool for the seeded part: existing interfaces are drawn from c16Names, list elements from
 // names, their negations, spellings of "any" and names that never exist
-var c16Names = []string{"a", "b", "c", "eth0", "eth1", "eth2", "wlan0", "lo", "t4", "any", "x.y:z_w-1", "abcdefghijklmno", "ANY", "br-0"}
+var c16Names = []string{"a", "b", "c", "eth0", "eth1", "eth2", "wlan0", "lo", "t4", "any", "x.y:z_w-1", "abcdefghijklmno", "ANY", "br-0", "many1", "company0", "anyx", "xANY"}
 var c16Unknown = []string{"zz", "eth9", "nope", "Any", "aNy", "a.b"}
 var c16Bad = []string{"", " ", " eth2", "!", "!!a", "a b", "eth/0", "abcdefghijklmnop", "!abcdefghijklmnop", "ä", "a!", "/a/", "a\n", "\xff", "%41", "-"}
 var c16Regexps = []string{
@@ -407,7 +407,7 @@ func c16Gen(r *Rand, tier string) []Case {
 func init() {
 	register(&Prop{
 		ID: "C16",
-		Rule: "exhaustive: every list of length 1..5 (thorough 1..6) over {a,b,c,any,!a,!b,!zz} x every subset of existing interfaces {a,b,c} through the verif hook, and of length 1..2 (thorough 1..4) through QueryRunner.Run on scratch database directories; seeded: longer lists (up to 40 elements) over 14 existing / 6 unknown names, their negations and spellings of 'any', 1 in 6 with a malformed element (empty, blank, '!', '!!a', 16 characters, non-ASCII, slash, newline); regexp arguments from a table of 41 patterns (valid, not compiling, not of the form /../) and random concatenations of pattern pieces, each with the regexp library's own match verdict per interface. Non-trivial: a well-formed list in which a negation removes an interface that would otherwise be selected and that also has a repeated element, 'any' or a name that does not exist; a regexp that matches some but not all interfaces. Distinct = distinct case lines.",
+		Rule: "exhaustive: every list of length 1..5 (thorough 1..6) over {a,b,c,any,!a,!b,!zz} x every subset of existing interfaces {a,b,c} through the verif hook, and of length 1..2 (thorough 1..4) through QueryRunner.Run on scratch database directories; seeded: longer lists (up to 40 elements) over 18 existing (incl. names that merely contain 'any') / 6 unknown names, their negations and spellings of 'any', 1 in 6 with a malformed element (empty, blank, '!', '!!a', 16 characters, non-ASCII, slash, newline); regexp arguments from a table of 41 patterns (valid, not compiling, not of the form /../) and random concatenations of pattern pieces, each with the regexp library's own match verdict per interface. Non-trivial: a well-formed list in which a negation removes an interface that would otherwise be selected and that also has a repeated element, 'any' or a name that does not exist; a regexp that matches some but not all interfaces. Distinct = distinct case lines.",
 		Gen:  c16Gen,
 		Run:  c16Run,
 		Init: func(string) error {
